@@ -2738,6 +2738,15 @@ class HasTraits(CHasTraits, metaclass=MetaHasTraits):
         value = (weakref.ref(object, callback), alias)
 
         if key not in dic:
+            # Copy the current value first: if the other object rejects it,
+            # the exception propagates and nothing has been registered.
+            try:
+                setattr(object, alias, getattr(self, trait_name))
+            except BaseException:
+                if len(dic) == 0:
+                    del info[trait_name]
+                raise
+
             if len(dic) == 0:
                 self._on_trait_change(self._sync_trait_modified, trait_name)
                 if is_list:
@@ -2745,7 +2754,6 @@ class HasTraits(CHasTraits, metaclass=MetaHasTraits):
                         self._sync_trait_items_modified, trait_name + "_items"
                     )
             dic[key] = value
-            setattr(object, alias, getattr(self, trait_name))
 
         if mutual:
             object.sync_trait(alias, self, trait_name, False)
